@@ -155,6 +155,19 @@ func (e *SpecEnv) lookupIdent(name string) (Val, bool) {
 			return e.results[i], true
 		}
 	}
+	if at := strings.Index(name, "@"); at > 0 && e.fr != nil {
+		// name@N: the loop-carried variable `name` of loop N
+		var n int
+		fmt.Sscanf(name[at+1:], "%d", &n)
+		for _, li := range e.fr.loopList {
+			if li.ord == n {
+				if pv, ok := li.phiNames[name[:at]]; ok {
+					return e.fr.vals[pv], true
+				}
+			}
+		}
+		return Val{}, false
+	}
 	if strings.HasPrefix(name, "#") {
 		// loop counter
 		var n int
@@ -232,30 +245,66 @@ func (c *Ctx) constToVal(k constant.Value, t types.Type) Val {
 	return Val{T: "0", Ty: tInt}
 }
 
-// lookupDebug resolves a source variable through DebugRef instructions whose
-// block dominates the current block.
+// lookupDebug resolves a source variable at the current program point: among
+// the DebugRef instructions for that name and the phi nodes carrying that
+// name, the one whose block is the closest dominator of the current block
+// (latest instruction within a block) gives the value.
 func (fr *frame) lookupDebug(name string, st *State) (Val, bool) {
-	refs := fr.debug[name]
-	var best *ssa.DebugRef
-	for _, d := range refs {
-		if fr.cur != nil && !(d.Block() == fr.cur || d.Block().Dominates(fr.cur)) {
-			continue
+	depth := func(b *ssa.BasicBlock) int {
+		n := 0
+		for x := b; x != nil; x = x.Idom() {
+			n++
 		}
-		if _, ok := fr.vals[d.X]; !ok {
-			switch d.X.(type) {
+		return n
+	}
+	bestDepth, bestIdx := -1, -2
+	var bestVal ssa.Value
+	bestAddr := false
+	consider := func(b *ssa.BasicBlock, idx int, v ssa.Value, isAddr bool) {
+		if fr.cur != nil && !(b == fr.cur || b.Dominates(fr.cur)) {
+			return
+		}
+		if b == fr.cur && fr.curInstr >= 0 && idx > fr.curInstr {
+			return
+		}
+		if _, ok := fr.vals[v]; !ok {
+			switch v.(type) {
 			case *ssa.Parameter, *ssa.Const, *ssa.Global, *ssa.Function:
 			default:
-				continue
+				return
 			}
 		}
-		best = d
+		d := depth(b)
+		if d > bestDepth || d == bestDepth && idx > bestIdx {
+			bestDepth, bestIdx, bestVal, bestAddr = d, idx, v, isAddr
+		}
 	}
-	if best == nil {
+	for _, d := range fr.debug[name] {
+		idx := 0
+		for k, ins := range d.Block().Instrs {
+			if ins == ssa.Instruction(d) {
+				idx = k
+			}
+		}
+		consider(d.Block(), idx, d.X, d.IsAddr)
+	}
+	for _, b := range fr.fn.Blocks {
+		for k, ins := range b.Instrs {
+			phi, ok := ins.(*ssa.Phi)
+			if !ok {
+				break
+			}
+			if phi.Comment == name {
+				consider(b, k, phi, false)
+			}
+		}
+	}
+	if bestVal == nil {
 		return Val{}, false
 	}
-	v := fr.val(best.X)
-	if best.IsAddr {
-		return fr.load(st, v, best.Pos()), true
+	v := fr.val(bestVal)
+	if bestAddr {
+		return fr.load(st, v, 0), true
 	}
 	return v, true
 }
